@@ -561,5 +561,22 @@ def _metaschema_integerish(schema):
     return schema
 
 
+SIZE_KEYWORDS = ("minLength", "maxLength", "minItems", "maxItems", "minProperties", "maxProperties")
+
+
+def _integral_sizes(node, depth=0):
+    """The metaschema asks for integers at the size keywords; Draft 6 counts 2.0 as one (the model's own
+    `integer` is the Python int, a documented deviation for VALUES, not for the schema's own keywords)."""
+    if depth > 60:
+        return node
+    if isinstance(node, dict):
+        return {key: (int(val) if key in SIZE_KEYWORDS and isinstance(val, float) and val.is_integer()
+                      else _integral_sizes(val, depth + 1)) for key, val in node.items()}
+    if isinstance(node, list):
+        return [_integral_sizes(val, depth + 1) for val in node]
+    return node
+
+
 def metaschema_valid(schema):
+    schema = _integral_sizes(schema)
     return valid(METASCHEMA, schema, METASCHEMA, Dev(formats=()))
